@@ -327,8 +327,9 @@ func (e *env) run(st Step) (res Result) {
 		// exact control over the backing array: len(b) bytes, st.N spare bytes of capacity
 		tail, _ := hex.DecodeString(st.Tail)
 		extra := 0
-		if os.Getenv("VFRUN_DIRTY") != "" {
+		if d := os.Getenv("VFRUN_DIRTY"); d != "" && !(d == "2" && len(e.bufs) == 0) {
 			extra = 8192 // a recycled buffer: spare capacity that still holds what was there before
+			// (mode 2: every buffer but the first, which serves as the reference of comparisons)
 		}
 		back := make([]byte, len(b), len(b)+len(tail)+st.N+extra)
 		copy(back, b)
